@@ -13,7 +13,9 @@ combination of
 and the returned value is judged by an oracle written from the property statement only.  The state of the upstream
 connection is an input dimension as well: a known upstream protocol (handshake completed, ``server.alpn`` set) is crossed
 with ``server.state`` in {OPEN, CAN_READ, CAN_WRITE, CLOSED} (peer half-closed / closed after its handshake but before
-``tls_start_client`` runs); a protocol that is known stays known.  A second leg
+``tls_start_client`` runs); a protocol that is known stays known.  ``client.alpn`` pre-set by an addon in its
+``tls_clienthello`` hook (the documented way to steer the client's ALPN; None, b"", http/1.1, h2, h3, unknown; offered by the client
+or not) is a further dimension on all three stacks and on the real-NextLayer secure-web-proxy stack.  A second leg
 performs real in-memory TLS handshakes (stdlib ``ssl`` client with MemoryBIOs against the pyOpenSSL
 connection) and applies the same oracle to ``selected_alpn_protocol()`` as seen by the client.
 
@@ -68,13 +70,17 @@ REQUIRED = ["callback.offered_or_none", "callback.upstream_or_none", "callback.n
             "history.outer.oracle", "history.inner.oracle", "history.inner.selected_some", "history.inner_after_outer_alpn",
             "realstack.outer_http11_only", "realstack.selected_some",
             "pair.oracle", "pair.upstream_negotiated_none", "pair.upstream_negotiated_some", "pair.client_selected_some",
-            "callback.upstream_known_but_not_open", "handshake.upstream_known_but_not_open", "pair.upstream_closed_after_handshake"]
+            "callback.upstream_known_but_not_open", "handshake.upstream_known_but_not_open", "pair.upstream_closed_after_handshake",
+            "callback.client_alpn_preset", "callback.client_alpn_preset_and_offered", "handshake.client_alpn_preset",
+            "realstack.client_alpn_preset", "realstack.client_alpn_preset_and_offered"]
 RULE = (
     "case = (layer stack, upstream ALPN, upstream connection state, http2 option, client offer list); the callback leg enumerates all "
     "180 configurations (3 stacks x 2 http2 x [unknown upstream x {CLOSED, OPEN} + 7 known upstream values x {OPEN, CAN_READ, "
-    "CAN_WRITE, CLOSED}]) x 259 "
+    "CAN_WRITE, CLOSED}]) plus 120 configurations with client.alpn pre-set by an addon (3 stacks x 2 http2 x upstream in {unknown, none, "
+    "h2, http/1.1} x pin in {b'', http/1.1, h2, h3, x-unknown}), each x 259 "
     "combinations (offer lists of length<=3 over 6 protocol classes, ordered, with repetition) in both tiers; the handshake "
-    "leg runs real TLS handshakes for all offer lists of length<=2 (quick) / <=3 plus random longer lists with random unknown "
+    "leg runs real TLS handshakes for 20 offer lists (all of length<=1, all ordered pairs over h2/http/1.1/h3/unknown) in quick / all of "
+    "length<=3 plus random longer lists with random unknown "
     "protocol names (thorough), and a client without ALPN extension; the history leg runs outer+inner handshakes on one client "
     "connection through the real ClientTLSLayer: outer offer in {no ALPN, [http/1.1], [h2,http/1.1], [h2], [x-unknown,http/1.1]} x "
     "upstream x http2 x inner offer (quick: 13 lists incl. every single protocol and pairs containing the outer protocol; "
@@ -85,7 +91,9 @@ RULE = (
     "classes[, outer offer]) combination; non-trivial = the client offers at least one protocol"
 )
 ASSUMPTIONS = [
-    "client.alpn is not pre-set by a user addon (the secure-web-proxy override is exercised through the real layer stack)",
+    "client.alpn pre-set by an addon (in tls_clienthello) is the documented, repo-tested override of mitmproxy's own ALPN choice: with "
+    "such a pin the clause 'upstream known -> that protocol or none' is NOT judged (the user decided), while 'offered or none', 'secure "
+    "web proxy outer connection: http/1.1 or none' and 'no h2 when http2 is disabled' are judged regardless of the pin",
     "the stdlib ssl module (OpenSSL client) reports the negotiated ALPN truthfully",
 ]
 LEVEL_TEXT = (
@@ -104,20 +112,28 @@ SERVER_STATES = ["OPEN", "CAN_READ", "CAN_WRITE", "CLOSED"]
 # and the connection is open, half-closed in either direction, or closed by the time the client handshake starts
 CONFIGS = [(s, u, h, st) for s in STACKS for u in UPSTREAMS for h in (True, False)
            for st in (("CLOSED", "OPEN") if u is None else SERVER_STATES)]  # 180
-N_ENUM = len(CONFIGS) * len(OFFERS)
+PINS = [b"", b"http/1.1", b"h2", b"h3", b"x-unknown"]  # client.alpn assigned by an addon in tls_clienthello (None = no such addon)
+CONFIGS = [c + (None,) for c in CONFIGS]
+PIN_CONFIGS = [(s, u, h, ("CLOSED" if u is None else "OPEN"), p) for s in STACKS for u in (None, b"", b"h2", b"http/1.1")
+               for h in (True, False) for p in PINS]  # 120
+ALL_CONFIGS = CONFIGS + PIN_CONFIGS  # 300
+N_ENUM = len(ALL_CONFIGS) * len(OFFERS)
 
 NONE = "none"
 
 
-def oracle(stack, upstream, http2, offers, selected):
-    """Return list of violated clauses. selected: bytes or NONE."""
+def oracle(stack, upstream, http2, offers, selected, pin=None):
+    """Return list of violated clauses. selected: bytes or NONE.
+    pin = client.alpn assigned by an addon: the explicit, documented override of mitmproxy's own choice (repo test "respect addons
+    setting client.alpn" pins a protocol although upstream negotiated h2). With a pin the mirroring clause is therefore not judged;
+    the three capability clauses (offered-or-none, outer secure-web-proxy connection http/1.1 only, no h2 when disabled) are."""
     bad = []
     if selected != NONE and selected not in offers:
         bad.append("not-offered")
     if stack in ("swp-outer", "swp-outer-realstack"):
         if selected not in (NONE, b"http/1.1"):
             bad.append("outer-not-http11")
-    elif upstream is not None:
+    elif upstream is not None and pin is None:
         # upstream protocol already known ("" = the server negotiated none)
         want = upstream if upstream else NONE
         if selected not in (NONE, want):
@@ -127,8 +143,12 @@ def oracle(stack, upstream, http2, offers, selected):
     return bad
 
 
-def classify(stack, upstream, http2, offers, bad):
+def classify(stack, upstream, http2, offers, bad, pin=None):
     """Mechanism from the input only."""
+    if pin is not None:
+        if bad == ["h2-while-http2-disabled"] and pin == b"h2" and b"h2" in offers and not http2 and not stack.startswith("swp-outer"):
+            return "addon-pinned-h2-while-http2-disabled"
+        return None
     if stack == "swp-outer-realstack":
         # stack built by the real NextLayer addon: [HttpProxy, ClientTLSLayer, HttpLayer] (3 layers, not 2); the client's most
         # preferred HTTP protocol is not http/1.1
@@ -158,7 +178,7 @@ class World:
     def close(self):
         self.tctx_cm.__exit__(None, None, None)
 
-    def start_client(self, stack, upstream, http2, state="CLOSED") -> SSL.Connection:
+    def start_client(self, stack, upstream, http2, state="CLOSED", pin=None) -> SSL.Connection:
         if self.http2 != http2:
             self.tctx.configure(self.ta, http2=http2)
             self.http2 = http2
@@ -184,21 +204,27 @@ class World:
         else:
             modes.TransparentProxy(ctx)
             layers.ClientTLSLayer(ctx)
+        if pin is not None:
+            client.alpn = pin  # what an addon's tls_clienthello hook does, after the layers exist and before tls_start_client
         data = tls.TlsData(client, context=ctx)
         self.ta.tls_start_client(data)
         assert data.ssl_conn is not None
         return data.ssl_conn
 
 
-def judge(ctx, leg, stack, upstream, http2, offers, selected, state=None):
-    bad = oracle(stack, upstream, http2, offers, selected)
+def judge(ctx, leg, stack, upstream, http2, offers, selected, state=None, pin=None):
+    bad = oracle(stack, upstream, http2, offers, selected, pin)
+    if pin is not None:
+        ctx.count(f"{leg}.client_alpn_preset")
+        if pin in offers:
+            ctx.count(f"{leg}.client_alpn_preset_and_offered")
     if upstream is not None and state not in (None, "OPEN"):
         ctx.count(f"{leg}.upstream_known_but_not_open")
     ctx.count(f"{leg}.offered_or_none" if leg == "callback" else f"{leg}.oracle")
     if leg == "callback":
         if stack == "swp-outer":
             ctx.count("callback.outer_http11_only")
-        elif upstream is not None:
+        elif upstream is not None and pin is None:
             ctx.count("callback.upstream_or_none")
         if not http2:
             ctx.count("callback.no_h2_when_disabled")
@@ -207,8 +233,9 @@ def judge(ctx, leg, stack, upstream, http2, offers, selected, state=None):
     if bad:
         ctx.violation(
             f"{leg}:" + "+".join(bad),
-            {"stack": stack, "upstream": upstream, "upstream_state": state, "http2": http2, "offers": list(offers), "selected": selected},
-            mechanism=classify(stack, upstream, http2, offers, bad),
+            {"stack": stack, "upstream": upstream, "upstream_state": state, "http2": http2, "client_alpn_set_by_addon": pin,
+             "offers": list(offers), "selected": selected},
+            mechanism=classify(stack, upstream, http2, offers, bad, pin),
         )
 
 
@@ -260,7 +287,7 @@ INNER_QUICK = [None, ()] + [(p,) for p in PROTOS] + [(b"h2", b"http/1.1"), (b"ht
                                                          (b"x-unknown", b"http/1.1"), (b"http/1.0", b"http/1.1")]
 
 
-def layer_handshake(w, lyr, client_conn, offers, real_next_layer=False):
+def layer_handshake(w, lyr, client_conn, offers, real_next_layer=False, pin=None):
     """Full TLS handshake of a stdlib ssl client against a ClientTLSLayer; hooks go to the real TlsConfig addon.
     -> (ALPN the client observes or NONE, list of hook names) or (None, hooks) if the handshake did not complete."""
     cctx = ssl.SSLContext(ssl.PROTOCOL_TLS_CLIENT)
@@ -285,6 +312,8 @@ def layer_handshake(w, lyr, client_conn, offers, real_next_layer=False):
                         else:
                             cmd.data.layer = Sink(cmd.data.context)
                     elif hasattr(w.ta, cmd.name):
+                        if cmd.name == "tls_clienthello" and pin is not None:
+                            cmd.args()[0].context.client.alpn = pin  # a user addon steering the client's ALPN
                         getattr(w.ta, cmd.name)(*cmd.args())
                     queue.append(events.HookCompleted(cmd, None))
                 elif isinstance(cmd, commands.SendData):
@@ -372,7 +401,7 @@ def run_history(ctx, w, outer_offers, upstream, http2, inner_offers):
     return f"outer={sel_outer if sel_outer == NONE else sel_outer.decode()},inner={sel_inner if sel_inner == NONE else cls_of(sel_inner)}"
 
 
-def run_realstack(ctx, w, top_cls, http2, offers):
+def run_realstack(ctx, w, top_cls, http2, offers, pin=None):
     if w.http2 != http2:
         w.tctx.configure(w.ta, http2=http2)
         w.http2 = http2
@@ -382,7 +411,7 @@ def run_realstack(ctx, w, top_cls, http2, offers):
         client.proxy_mode = mode_specs.ProxyMode.parse("upstream:https://proxy.example:8443")
     c = context.Context(client, w.tctx.options)
     top = top_cls(c)
-    sel, hooks = layer_handshake(w, top, client, offers, real_next_layer=True)
+    sel, hooks = layer_handshake(w, top, client, offers, real_next_layer=True, pin=pin)
     if sel is None:
         ctx.count("realstack.incomplete")
         return "incomplete"
@@ -395,11 +424,16 @@ def run_realstack(ctx, w, top_cls, http2, offers):
     if any(h.startswith("post-handshake-exception") for h in hooks):
         ctx.count("realstack.post_handshake_layer_exception")
         ctx.seen("post_handshake_layer_exceptions", (cls_of(sel) if sel != NONE else NONE, hooks[-1]))
-    bad = oracle(stack, None, http2, eff, sel)
+    if pin is not None:
+        ctx.count("realstack.client_alpn_preset")
+        if pin in eff:
+            ctx.count("realstack.client_alpn_preset_and_offered")
+    bad = oracle(stack, None, http2, eff, sel, pin)
     if bad:
-        ctx.violation("realstack:" + "+".join(bad), {"top_layer": top_cls.__name__, "http2": http2, "offers": list(eff), "selected": sel,
+        ctx.violation("realstack:" + "+".join(bad), {"top_layer": top_cls.__name__, "http2": http2, "client_alpn_set_by_addon_in_tls_clienthello": pin,
+                                                      "offers": list(eff), "selected": sel,
                                                       "layers_at_handshake": [type(x).__name__ for x in c.layers], "hooks": hooks},
-                      mechanism=classify(stack, None, http2, eff, bad))
+                      mechanism=classify(stack, None, http2, eff, bad, pin))
     return sel if sel == NONE else cls_of(sel)
 
 
@@ -570,18 +604,25 @@ def run(ctx):
         return conns[cfg]
 
     short_offers = [o for o in OFFERS if len(o) <= 2]
+    pin_cfgs_hs = [c for c in PIN_CONFIGS if c[1] in (None, b"h2")]  # 60
     base_cfgs = [c for c in CONFIGS if c[3] == ("CLOSED" if c[1] is None else "OPEN")]  # 48, as before the state dimension
     state_cfgs = [c for c in CONFIGS if c not in base_cfgs and c[0] != "swp-outer"]  # other upstream states (outer ignores upstream)
-    hs_space = [(cfg, o) for cfg in base_cfgs for o in ([None] + (short_offers if ctx.tier == "quick" else OFFERS))]
-    hs_space += [(cfg, o) for cfg in state_cfgs for o in (PAIR_CLIENT_QUICK if ctx.tier == "quick" else [None] + short_offers)]
+    quick_hs_offers = [None, ()] + [(p,) for p in PROTOS] + [(a, b) for a in (b"h2", b"http/1.1", b"h3", b"x-unknown")
+                                                             for b in (b"h2", b"http/1.1", b"h3", b"x-unknown") if a != b]  # 20
+    hs_space = [(cfg, o) for cfg in base_cfgs for o in (quick_hs_offers if ctx.tier == "quick" else [None] + OFFERS)]
+    hs_space += [(cfg, o) for cfg in state_cfgs for o in (PAIR_CLOSE_QUICK if ctx.tier == "quick" else [None] + short_offers)]
+    hs_space += [(cfg, o) for cfg in (pin_cfgs_hs if ctx.tier == "quick" else PIN_CONFIGS)
+                 for o in (PAIR_CLOSE_QUICK if ctx.tier == "quick" else [None] + short_offers)]
     n_hs_enum = len(hs_space)
     inner_lists = INNER_QUICK if ctx.tier == "quick" else [None] + short_offers
     hist_space = [(oo, u, h, io) for oo in OUTER_OFFERS for u in UPSTREAMS for h in (True, False) for io in inner_lists]
     if ctx.tier == "quick":
         hist_space = [x for x in hist_space if x[0] in (None, (b"http/1.1",), (b"h2", b"http/1.1"))]
     n_hist = len(hist_space)
-    rs_space = [(t, h, o) for t in (modes.HttpProxy, modes.HttpUpstreamProxy) for h in (True, False)
+    rs_space = [(t, h, o, None) for t in (modes.HttpProxy, modes.HttpUpstreamProxy) for h in (True, False)
                 for o in ([None] + (short_offers if ctx.tier == "quick" else OFFERS))]
+    rs_space += [(t, h, o, p) for t in (modes.HttpProxy, modes.HttpUpstreamProxy) for h in (True, False) for p in PINS
+                 for o in (PAIR_CLIENT_QUICK if ctx.tier == "quick" else [None] + short_offers)]
     n_rs = len(rs_space)
     pair_space = [(st, u, h, o, "open") for st in ("transparent", "regular-inner") for u in UPSTREAM_PEERS for h in (True, False)
                   for o in (PAIR_CLIENT_QUICK if ctx.tier == "quick" else [None] + short_offers)]
@@ -595,9 +636,9 @@ def run(ctx):
             if i < n_fixed and i % ctx.nworkers != ctx.worker and ctx.only_case is None:
                 continue
             if i < N_ENUM:
-                cfg = CONFIGS[i // len(OFFERS)]
+                cfg = ALL_CONFIGS[i // len(OFFERS)]
                 offers = OFFERS[i % len(OFFERS)]
-                stack, upstream, http2, state = cfg
+                stack, upstream, http2, state, pin = cfg
                 conn = conn_for(cfg)
                 try:
                     r = tlsconfig.alpn_select_callback(conn, list(offers))
@@ -606,9 +647,10 @@ def run(ctx):
                     ctx.case(("cb", cfg, offers), nontrivial=bool(offers))
                     continue
                 selected = NONE if r is SSL.NO_OVERLAPPING_PROTOCOLS else r
-                judge(ctx, "callback", stack, upstream, http2, offers, selected, state)
-                ctx.case(("cb", stack, upstream, state, http2, offers), nontrivial=bool(offers),
+                judge(ctx, "callback", stack, upstream, http2, offers, selected, state, pin)
+                ctx.case(("cb", stack, upstream, state, http2, pin, offers), nontrivial=bool(offers),
                          sample={"leg": "callback", "stack": stack, "upstream": upstream, "upstream_state": state, "http2": http2,
+                                 "client_alpn_set_by_addon": pin,
                                  "offers": list(offers), "selected": selected} if i % 997 == 5 else None)
                 continue
             r = ctx.rng
@@ -635,14 +677,15 @@ def run(ctx):
                                  "outcome": outcome} if i % 53 == 3 else None)
                 continue
             if N_ENUM + n_hs_enum + n_hist <= i < N_ENUM + n_hs_enum + n_hist + n_rs:
-                t, h, o = rs_space[i - N_ENUM - n_hs_enum - n_hist]
+                t, h, o, pin = rs_space[i - N_ENUM - n_hs_enum - n_hist]
                 try:
-                    outcome = run_realstack(ctx, w, t, h, o)
+                    outcome = run_realstack(ctx, w, t, h, o, pin)
                 except Exception as e:
                     ctx.violation("realstack-raises", {"top": t.__name__, "http2": h, "offers": list(o) if o else o, "exc": repr(e)})
                     outcome = "raises"
-                ctx.case(("realstack", t.__name__, h, o), nontrivial=bool(o),
-                         sample={"leg": "realstack", "top_layer": t.__name__, "http2": h, "offers": list(o) if o else o, "client_sees": outcome}
+                ctx.case(("realstack", t.__name__, h, pin, o), nontrivial=bool(o),
+                         sample={"leg": "realstack", "top_layer": t.__name__, "http2": h, "client_alpn_set_by_addon": pin,
+                                 "offers": list(o) if o else o, "client_sees": outcome}
                          if i % 41 == 3 else None)
                 continue
             if N_ENUM + n_hs_enum <= i < N_ENUM + n_hs_enum + n_hist:
@@ -666,10 +709,10 @@ def run(ctx):
             if i < N_ENUM + n_hs_enum:
                 cfg, offers = hs_space[i - N_ENUM]
             else:
-                cfg = r.choice(CONFIGS)
+                cfg = r.choice(ALL_CONFIGS)
                 pool = PROTOS + [bytes(r.choice(b"abcxyz-/.0129") for _ in range(r.randint(1, 12))) for _ in range(3)]
                 offers = tuple(r.choice(pool) for _ in range(r.randint(4, 8)))
-            stack, upstream, http2, state = cfg
+            stack, upstream, http2, state, pin = cfg
             conn = w.start_client(*cfg)  # fresh connection object per handshake
             sel, srv = handshake(conn, offers)
             if sel is None:
@@ -677,11 +720,11 @@ def run(ctx):
                 ctx.case(("hs-incomplete", cfg), nontrivial=False)
                 continue
             eff = offers or ()
-            judge(ctx, "handshake", stack, upstream, http2, eff, sel, state)
+            judge(ctx, "handshake", stack, upstream, http2, eff, sel, state, pin)
             ctx.count("handshake.client_server_agree")
             if sel != srv:
                 ctx.violation("handshake:client-server-disagree", {"cfg": cfg, "offers": list(eff), "client": sel, "server": srv})
-            ctx.case(("hs", stack, upstream, state, http2, tuple(cls_of(o) for o in eff)), nontrivial=bool(eff),
+            ctx.case(("hs", stack, upstream, state, http2, pin, tuple(cls_of(o) for o in eff)), nontrivial=bool(eff),
                      sample={"leg": "handshake", "stack": stack, "upstream": upstream, "upstream_state": state, "http2": http2,
                              "offers": list(eff), "client_sees": sel} if i % 499 == 3 else None)
         ctx.extra["enumerated_callback_combinations"] = N_ENUM
